@@ -95,6 +95,15 @@ NCgenio(NC *handle, int varid, const long *start, const long *count, const long 
         }
 
         /*
+         * A hyperslab with an empty edge holds no values: there is nothing
+         * to transfer.  (The loop below does one round of I/O before it
+         * looks at the counts.)
+         */
+        for (idim = 0; idim <= maxidim; ++idim)
+            if (mycount[idim] == 0)
+                return 0;
+
+        /*
          * As an optimization, adjust I/O parameters when the fastest
          * dimension has unity stride both externally and internally.
          * In this case, the user could have called a simpler routine
